@@ -42,7 +42,7 @@ def nontrivial(spec):
     return len(ms) >= 2 or len(ids) >= 3 or tup or (spec["cell"] == "prism" and ("ds" in ms))
 
 
-def structural_check(fr, names):
+def structural_check(fr, names, diagonal=False):
     """Descriptor invariants and metadata.  Returns None or (kind, message)."""
     d = fr.desc
     offs = d["offsets"]
@@ -85,17 +85,19 @@ def structural_check(fr, names):
     fd = fr.fd
     form = fr.form
     exp = {
-        "rank": len(form.arguments()),
+        # part='diagonal' turns a bilinear form into a rank-1 object: one argument, then the coefficients
+        "rank": 1 if diagonal else len(form.arguments()),
         "num_coefficients": len(fd.reduced_coefficients),
         "original_coefficient_positions": [int(p) for p in fd.original_coefficient_positions],
         "num_constants": len(form.constants()),
         "constant_ranks": [len(c.ufl_shape) for c in form.constants()],
         "constant_shapes": [[int(s) for s in c.ufl_shape] for c in form.constants()],
         # elements without a basix hash (mixed elements) are recorded as 0
-        "finite_element_hashes": [int(e.basix_hash() or 0) for e in tuple(fd.argument_elements) + tuple(fd.coefficient_elements)],
-        "coefficient_names": [names.get(id(c), None) for c in fd.reduced_coefficients],
-        "constant_names": [names.get(id(c), None) for c in form.constants()],
+        "finite_element_hashes": [int(e.basix_hash() or 0) for e in tuple(fd.argument_elements)[: 1 if diagonal else None] + tuple(fd.coefficient_elements)],
     }
+    if names is not None:
+        exp["coefficient_names"] = [names.get(id(c), None) for c in fd.reduced_coefficients]
+        exp["constant_names"] = [names.get(id(c), None) for c in form.constants()]
     for k, v in exp.items():
         if d[k] != v:
             return ("metadata", f"descriptor field {k} = {d[k]} but the form gives {v}")
@@ -175,11 +177,36 @@ def evaluate_module(case, wd):
                    sample={"specs": [strategies.strip_meta(s) for s in speclist][:2]})
 
 
+P_DIAG = {"cells": ["interval", "triangle", "quadrilateral", "tetrahedron", "prism"], "measures": ["dx", "dx", "ds", "dS"], "arities": [2], "same_args": True,
+          "max_integrals": 3, "depth": 1, "maxdeg": 2, "max_qdeg": 3, "ids": "few", "p_scheme": 0.0, "p_vertex": 0.0, "ncoef": (1, 3), "nconst": (0, 2)}
+
+
+def evaluate_diagonal(spec, wd):
+    """The descriptor of a bilinear form compiled with part='diagonal' (a rank-1 object: one argument, then the coefficients)."""
+    sclean = strategies.strip_meta(spec)
+    h = spec_hash(["diag", sclean])
+    classes = ["family:diagonal-descriptor"] + strategies.spec_classes(spec)
+    fr = formcheck.FormRunner(spec, wd, scalar_type="float64", options={"part": "diagonal"}, name="d" + h)
+    if fr.is_zero_form():
+        return Outcome("zero-form", case_id=h, classes=classes)
+    try:
+        fr.compile()
+    except (kernels.Rejected, kernels.CompileError) as e:
+        return Outcome("rejected", case_id=h, classes=classes, what=str(e)[:200])
+    fr.form_name = fr.module.names[0][1]
+    bad = structural_check(fr, None, diagonal=True)
+    if bad:
+        return Outcome("violation", case_id=h, classes=classes, key=f"{PROP}:diagonal:{bad[0]}:{h}", bucket=f"{PROP}:diagonal:{bad[0]}",
+                       what="part='diagonal': " + bad[1], replay={"kind": "diagonal", "spec": sclean, "ufl_source": specs.to_source(sclean)}, sample={"spec": sclean})
+    return Outcome("ok", case_id=h, nontrivial=fr.desc["num_coefficients"] >= 1, classes=classes, sample={"spec": sclean, "options": {"part": "diagonal"}})
+
+
 def shard(shard, nshards, n, tier, seed):
     res = ShardResult()
     with scratch(f"vf-c06-{shard}-") as wd:
         strat = st.lists(strategies.form_specs(PROFILE), min_size=1, max_size=3)
         drive(strat, lambda c: evaluate_module(c, wd), n, (PROP, seed, shard), res, shrink_calls=40)
+        drive(strategies.form_specs(P_DIAG), lambda c: evaluate_diagonal(c, wd), max(2, n // 3), (PROP, seed, shard, "diag"), res, shrink_calls=20)
     return res
 
 
@@ -197,6 +224,14 @@ def run(tier: str) -> int:
 
 def replay(doc) -> int:
     rp = doc["replay"]
+    if rp.get("kind") == "diagonal":
+        with scratch("vf-replay-") as wd:
+            o = evaluate_diagonal(rp["spec"], wd)
+        print(o.status, o.what)
+        if o.status == "violation":
+            print(f"VIOLATION property={PROP} replay=(replayed)")
+            return 1
+        return 0
     specs_ = rp.get("module_specs") or [rp["spec"]]
     with scratch("vf-replay-") as wd:
         o = evaluate_module(specs_, wd)
